@@ -221,7 +221,45 @@ def rule_innermost(ck):
         ck.ob("mpt.innermost_binding", "traversal/breadth-first", bfs, "", t.loc())
 
 
+CALLER_SAVED = {"Rax", "Rcx", "Rdx", "Rsi", "Rdi", "R8", "R9", "R10", "R11"}  # System V x86-64: not preserved across calls
+
+
+def rule_entry_value(ck):
+    """DW_OP_entry_value(regN): the value at function entry, or nothing — never the current register"""
+    prog = ck.prog
+    ck.rule("mpt.entry_value", "a location `DW_OP_entry_value(DW_OP_regN)` (what LLVM emits for a parameter once its register has been overwritten) is answered from the entry-register snapshot: the RequiresEntryValue arm reads the register named by the inner expression from the map returned by resolve_registers, and that map has every caller-saved register (System V: rax rcx rdx rsi rdi r8-r11) invalidated because unwinding cannot recover them — evaluating the inner `DW_OP_regN` as a register location reads what the function has put into the register since")
+    ev = [f for p_, f in prog.fns.items() if p_.endswith("ExpressionEvaluator::<'a>::evaluate_with_resolver") or p_.endswith("ExpressionEvaluator::evaluate_with_resolver")]
+    if not ck.ob("mpt.entry_value", "evaluate_with_resolver/exists", len(ev) == 1, f"{len(ev)}", ""):
+        return
+    f = ev[0]
+    ck.saw(f)
+    rr = [c for c in f.calls() if c.name.endswith("::resolve_registers")]
+    resume = [c for c in f.calls() if c.name.endswith("::resume_with_entry_value")]
+    ok = False
+    d = "no resolve_registers / resume_with_entry_value pair"
+    if len(rr) == 1 and len(resume) == 1:
+        region = {b for b in f.after(rr[0].bb) if resume[0].bb in f.after(b) or b == resume[0].bb}
+        names = [f.call_at(b).name for b in region if f.call_at(b) is not None]
+        ops = any(n.endswith("::operations") for n in names)
+        val = [f.call_at(b) for b in region if f.call_at(b) is not None and f.call_at(b).name.endswith("DwarfRegisterMap::value")]
+        from_snapshot = any(op_place(c.args[0]) and op_place(c.args[0])[0] in taint_from(f, {rr[0].dest[0]}) for c in val)
+        ok = ops and from_snapshot
+        d = f"inner expression decoded: {ops}; register read from the entry snapshot: {from_snapshot}"
+    ck.ob("mpt.entry_value", "entry_value(regN)/read-from-entry-snapshot", ok, d, f.loc(rr[0].bb) if rr else f.loc(), what="an argument whose register has been overwritten is shown with the register's current content (optimised code)")
+    rs = [g for p_, g in prog.fns.items() if p_.endswith("::resolve_registers") and "eval" in p_]
+    inval = set()
+    for g0 in rs:
+        for g in prog.with_closures(g0.path):
+            if any(c.name.endswith("DwarfRegisterMap::invalidate") for c in g.calls()):
+                ck.saw(g)
+                for i, j, pl, rv, sp in g.assigns():
+                    if rv["r"] == "agg" and rv["name"] == "debugger::register::Register" and rv.get("variant"):
+                        inval.add(rv["variant"])
+    ck.ob("mpt.entry_value", "resolve_registers/caller-saved-registers-invalidated", inval == CALLER_SAVED, f"invalidated: {sorted(inval)}; System V caller-saved: {sorted(CALLER_SAVED)}", rs[0].loc() if rs else "", what="the entry-register snapshot hands out current values of registers that are not preserved across calls")
+
+
 def run(ck):
+    rule_entry_value(ck)
     # "identical names in different frames or recursion depths show that activation's own values": the registers and the
     # frame base of the selected frame come from restore_registers_at_frame / get_cfa (shared with C05)
     from rules import C05
